@@ -497,6 +497,7 @@ def analyse_package(ctx, skip=('vis.', 'test.', 'io.petnames')):
     prog = ctx.prog
     summaries: Dict[str, Optional[T]] = {}
     results: Dict[str, OrderAnalysis] = {}
+    computed: Dict[str, Optional[T]] = {}
     funcs = {q: f for q, f in prog.functions.items() if not q.startswith(skip)}
 
     def make_resolver(q):
@@ -517,11 +518,19 @@ def analyse_package(ctx, skip=('vis.', 'test.', 'io.petnames')):
             results[q] = a
             rt = a.ret_type()
             rt = _strip_fresh(rt)
+            computed[q] = rt
+            # assume / guarantee: callers of a function with a documented order contract are typed with the contract unless the
+            # computed type CONTRADICTS it (then the callers see what the function really returns); whether the function meets
+            # its contract is a separate obligation (ORD-CONTRACT) at the function, decided from the computed type
+            if q in CONTRACTS and _compat3(rt, CONTRACTS[q][0]) != 'bad':
+                rt = CONTRACTS[q][0]
             if summaries.get(q) != rt:
                 summaries[q] = rt
                 changed = True
         if not changed:
             break
+    summaries = dict(summaries)
+    summaries['<computed>'] = computed
     return results, summaries
 
 
@@ -559,7 +568,32 @@ def report(ctx, obs, prefixes, rule='ORD'):
         for r, node, con, detail in a.findings:
             obs.bad(f'{rule}-{r}', q, con, detail, where(ctx.prog, fi, node))
             n += 1
+    # sites confirmed by hand on the pinned tree: a function that was rewritten so that a site is no longer order-typed still
+    # owes the obligation - it is reported as undecided (and counted), never dropped silently
+    for q, pinned in sorted(PINNED_SITES.items()):
+        if not q.startswith(tuple(prefixes)):
+            continue
+        fi = ctx.prog.func(q)
+        a = res.get(fi.qname)
+        got = (len(a.checked) + len(a.findings)) if a is not None else 0
+        for k in range(pinned - got):
+            obs.unk(f'{rule}-INDEX', q, f'order-typed index site #{got + k + 1} of {q.split(".")[-1]} (pinned tree: {pinned})',
+                    'the site is no longer recognised by the order typing (the function was rewritten): not decided',
+                    where(ctx.prog, fi, fi.node))
+            n += 1
     return n
+
+
+PINNED_SITES = {
+    'data.computations.average_dataset_by': 2,
+    'data.dataset.Dataset.split_channel': 1,
+    'data.dataset.Dataset.split_obs': 1,
+    'data.dataset.TemporalDataset.split_channel': 1,
+    'data.dataset.TemporalDataset.split_obs': 1,
+    'data.noise.cov_from_unbalanced': 1,
+    'util.data_utils.get_unique_inverse': 1,
+    'util.matrix.pairwise_contrast_sparse': 3,
+}
 
 
 def contract(ctx, obs, q: str, expected: T, what: str, rule='ORD-CONTRACT'):
@@ -568,7 +602,7 @@ def contract(ctx, obs, q: str, expected: T, what: str, rule='ORD-CONTRACT'):
     from ..model import AnalysisError
     _, summ = _analysis(ctx)
     fi = ctx.prog.func(q)
-    got = summ.get(q)
+    got = summ['<computed>'].get(fi.qname)
     con = f'{q.split(".")[-1]} returns {what}'
     if got is None:
         obs.unk(rule, q, con, 'the return value could not be order-typed (construction not recognised)', where(ctx.prog, fi, fi.node))
